@@ -1,12 +1,13 @@
 ------------------------------- MODULE HtmMatchTrace -------------------------------
 (* Trace validation for HTM matching: one ndjson line = one recorded LIFE of a      *)
 (* matcher on the real code,                                                        *)
-(*   {"id": n, "kind": "gc"|"rs", "p2": [...],                                      *)
+(*   {"id": n, "kind": "gc"|"rs", "p2": [...], "ident": bool,                       *)
 (*    "calls": [{"p1": [...], "rad": [...], "k": k, <observation fields>}, ...]}    *)
 (* (New(depth, p2), then the calls in order; the depth, the object flavour -       *)
-(* reusable Matcher or one-shot HTM.match -, the coordinate-array layout and the   *)
-(* lattice instantiation are NOT in the record: the specification says the result  *)
-(* does not depend on them).  Every call is judged by the property-level Failing   *)
+(* reusable Matcher or one-shot HTM.match -, the coordinate-array layout, the      *)
+(* lattice instantiation and whatever the caller did to its arrays after handing   *)
+(* them over (overwriting them in place) are NOT in the record: the specification  *)
+(* says the result does not depend on them).  Every call is judged by the property-level Failing   *)
 (* of HtmMatch.tla against the matcher state p2 alone, so a result that depends on *)
 (* depth, flavour, layout or on earlier calls is rejected wherever it deviates.    *)
 EXTENDS HtmMatch, Json, IOUtils
@@ -23,7 +24,7 @@ PickTrace == blk > 0 /\ tid = 0
              /\ \E t \in ((blk - 1) * BlockSize + 1)..VMin2(blk * BlockSize, NT) : tid' = t /\ blk' = blk
 Next == PickBlock \/ PickTrace
 
-CallOf(r, e) == [kind |-> r.kind, p2 |-> r.p2, p1 |-> e.p1, rad |-> e.rad, k |-> e.k]
+CallOf(r, e) == [kind |-> r.kind, p2 |-> r.p2, p1 |-> e.p1, rad |-> e.rad, k |-> e.k, ident |-> r.ident]
 
 \* failing clauses, each tagged with the number of the call that shows it
 FailingRec(r) == UNION {{<<n, f>> : f \in Failing(CallOf(r, r.calls[n]), r.calls[n])} : n \in DOMAIN r.calls}
